@@ -58,7 +58,7 @@ package accessory
 //@ func (m *Container) AddAccessory(a) (err)
 //@   requires containerInv(m) && tree(a)
 //@   requires fresh: forall(i, 0, len(m.Accessories), m.Accessories[i] != a)
-//@   assume nowrap
+//@   requires room: m.idCount < 18446744073709551615       // fewer than 2^64 - 1 automatic ids handed out so far
 //@   modifies m.Accessories, m.idCount, m.as[:], a.ID, a.idCount, alltype("github.com/brutella/hc/service.Service"), alltype("github.com/brutella/hc/characteristic.Characteristic"), heapof("loc")
 //@   ensures inv: containerInv(m)
 //@   ensures added: err == nil ==> len(m.Accessories) == old(len(m.Accessories)) + 1 && m.Accessories[len(m.Accessories) - 1] == a && a.ID != 0
